@@ -263,7 +263,10 @@ func (db *DB) newStreamWriter(ctx context.Context, cfgs ...WriterConfig) (w *str
 			if virtualWriters == nil {
 				virtualWriters = make(map[ChannelKey]*virtual.Writer)
 			}
-			virtualWriters[key], transfer, err = v.OpenWriter(ctx, virtual.WriterConfig{
+			// Only a writer that was opened goes into the map: the deferred clean-up
+			// closes every entry, and a refused open returns a nil writer.
+			var vW *virtual.Writer
+			vW, transfer, err = v.OpenWriter(ctx, virtual.WriterConfig{
 				Subject:               cfg.ControlSubject,
 				Start:                 cfg.Start,
 				Authority:             cfg.authority(i),
@@ -272,6 +275,7 @@ func (db *DB) newStreamWriter(ctx context.Context, cfgs ...WriterConfig) (w *str
 			if err != nil {
 				return nil, err
 			}
+			virtualWriters[key] = vW
 		} else {
 			var uW *unary.Writer
 			uW, transfer, err = u.OpenWriter(ctx, makeUnaryConfig(i))
